@@ -466,8 +466,10 @@ func (s *seqRunner) apply(op string) OpResult {
 	// 7. size bound after every op with a same-goroutine executor (C04)
 	if (s.cfg.MaxSize > 0 || s.cfg.MaxWeight > 0) && !s.deferred {
 		var sum uint64
-		for _, v := range r.C.All() {
-			sum += m.weightOf(v)
+		for _, n := range r.C.VerifRawTable() {
+			if n.ExpiresAt > m.now && (n.State == "alive" || n.State == "n/a") {
+				sum += m.weightOf(n.Value)
+			}
 		}
 		if sum > m.max {
 			s.fail("bound-exceeded", name, "after op %q the entries present weigh %d, the maximum is %d", op, sum, m.max)
@@ -514,37 +516,42 @@ func sameMap(a, b map[int]int) bool {
 }
 
 // compareState: the cache holds exactly the live entries of the model, with the same deadlines.
+// Only side-effect-free observers are used (the raw table and GetEntryQuietly): Cache.All would
+// schedule maintenance when it meets an expired node and so destroy the expired-but-unswept states
+// that later operations must be tried on. Iteration itself is judged by the explicit iteration symbols.
 func (s *seqRunner) compareState(op, name string) {
 	r, m := s.r, s.m
-	got := map[int]int{}
-	for k, v := range r.C.All() {
-		if _, dup := got[k]; dup {
-			s.fail("iteration-duplicate", "All", "after op %q All() yields key %d twice", op, k)
+	raw := map[int]int{}
+	for _, n := range r.C.VerifRawTable() {
+		if _, dup := raw[n.Key]; dup {
+			s.fail("table-duplicate-key", "table", "after op %q key %d is in the table twice", op, n.Key)
 		}
-		got[k] = v
+		raw[n.Key] = n.Value
 	}
-	for k, v := range got {
+	resurrect := strings.HasPrefix(op, "sea") || strings.HasPrefix(op, "sra")
+	for k, v := range raw {
 		e := m.m[k]
+		ent, visible := r.C.GetEntryQuietly(k)
 		switch {
 		case e == nil || e.val != v:
-			s.fail("phantom-value", name, "after op %q the cache holds %d=%d which the abstract map does not", op, k, v)
-		case e.exp <= m.now:
-			kind := "expired-observed"
-			if strings.HasPrefix(op, "sea") || strings.HasPrefix(op, "sra") {
-				kind = "expired-resurrected"
+			if visible {
+				s.fail("phantom-value", name, "after op %q the cache holds %d=%d which the abstract map does not", op, k, ent.Value)
 			}
-			s.fail(kind, name, "after op %q iteration yields %d=%d whose deadline %d has passed (clock %d)", op, k, v, e.exp, m.now)
+		case e.exp <= m.now:
+			if visible {
+				kind := "expired-observed"
+				if resurrect {
+					kind = "expired-resurrected"
+				}
+				s.fail(kind, "GetEntryQuietly", "after op %q GetEntryQuietly(%d) returns %d (expires %d) although the deadline %d passed at clock %d", op, k, ent.Value, ent.ExpiresAtNano, e.exp, m.now)
+			}
 		}
 	}
 	for _, k := range m.liveKeys() {
 		e := m.m[k]
-		if v, ok := got[k]; !ok || v != e.val {
-			s.fail("missing-entry", name, "after op %q the abstract map holds %d=%d (deadline %d, clock %d) but the cache does not, and no eviction was reported", op, k, e.val, e.exp, m.now)
-			continue
-		}
 		ent, ok := r.C.GetEntryQuietly(k)
-		if !ok {
-			s.fail("missing-entry", "GetEntryQuietly", "after op %q GetEntryQuietly(%d) misses although All() yields the key", op, k)
+		if !ok || ent.Value != e.val {
+			s.fail("missing-entry", name, "after op %q the abstract map holds %d=%d (deadline %d, clock %d) but the cache does not, and no eviction was reported", op, k, e.val, e.exp, m.now)
 			continue
 		}
 		wantExp, wantRef := never, never
@@ -554,8 +561,8 @@ func (s *seqRunner) compareState(op, name string) {
 		if s.cfg.Refresh != "" {
 			wantRef = e.ref
 		}
-		if ent.Value != e.val || ent.Weight != valWeightCfg(s.cfg, e.val) {
-			s.fail("entry-mismatch", "GetEntryQuietly", "after op %q entry of key %d is value %d weight %d, expected value %d weight %d", op, k, ent.Value, ent.Weight, e.val, valWeightCfg(s.cfg, e.val))
+		if ent.Weight != valWeightCfg(s.cfg, e.val) {
+			s.fail("entry-mismatch", "GetEntryQuietly", "after op %q entry of key %d has weight %d, expected %d", op, k, ent.Weight, valWeightCfg(s.cfg, e.val))
 		}
 		if ent.ExpiresAtNano != wantExp {
 			kind := "deadline-mismatch"
@@ -568,16 +575,12 @@ func (s *seqRunner) compareState(op, name string) {
 			s.fail("refresh-deadline-mismatch", name, "after op %q key %d is refreshable at %d, expected %d (clock %d)", op, k, ent.RefreshableAtNano, wantRef, m.now)
 		}
 	}
-	// expired-but-unswept keys must be invisible to quiet reads too
+	// model entries that the table no longer holds at all must have been reported (event-driven removal)
 	for k, e := range m.m {
-		if e.exp <= m.now {
-			if ent, ok := r.C.GetEntryQuietly(k); ok {
-				kind := "expired-observed"
-				if strings.HasPrefix(op, "sea") || strings.HasPrefix(op, "sra") {
-					kind = "expired-resurrected"
-				}
-				s.fail(kind, "GetEntryQuietly", "after op %q GetEntryQuietly(%d) returns %d (expires %d) although the deadline %d passed at clock %d", op, k, ent.Value, ent.ExpiresAtNano, e.exp, m.now)
-			}
+		if _, ok := raw[k]; !ok && e.exp <= m.now {
+			// expired and physically gone without an event: the Expiration report is missing
+			s.fail("event-missing", "OnAtomicDeletion", "after op %q the expired entry %d=%d is gone from the table but no removal was reported", op, k, e.val)
+			delete(m.m, k)
 		}
 	}
 }
@@ -644,6 +647,10 @@ func seqExplore(res *Result, raw json.RawMessage, job *Job) {
 	}
 	if p.Stats {
 		p.Cfg.Stats = true
+	}
+	if job.Replay != nil {
+		seqReplay(res, p, raw, job.Replay)
+		return
 	}
 	deadline := time.Now().Add(time.Duration(job.BudgetS) * time.Second)
 	kinds := map[string]bool{}
@@ -836,5 +843,43 @@ func (s *seqRunner) checkStats(op string) {
 		if st.Evictions < over || st.Evictions > over+exp || st.EvictionWeight < overW || st.EvictionWeight > overW+expW {
 			s.fail("eviction-count", name, "after op %q evictions=%d weight=%d; removals reported: %d Overflow (weight %d), %d Expiration (weight %d)", op, st.Evictions, st.EvictionWeight, over, overW, exp, expW)
 		}
+	}
+}
+
+// seqReplay re-runs one recorded operation sequence with every oracle on and reports what it sees.
+func seqReplay(res *Result, p seqParams, raw json.RawMessage, v *Violation) {
+	var ops []string
+	for _, op := range v.Ops {
+		if op != "save; load" {
+			ops = append(ops, op)
+		}
+	}
+	for round := 0; round < 2; round++ {
+		s := newSeqRunner(p.Cfg)
+		s.probe = p.Probe
+		var obs []string
+		for i, op := range ops {
+			s.step = i
+			r := s.apply(op)
+			obs = append(obs, fmt.Sprintf("%-28s clock=%d atomic=%v deletions=%v", r.String(), s.m.now, s.r.Atomic, s.r.Events))
+			if p.Stats {
+				s.checkStats(op)
+			}
+		}
+		if p.Persist != nil {
+			persistCheck(s, p.Persist, func(kind, subject, format string, args ...any) {
+				s.disc = append(s.disc, seqDisc{Discrepancy{Kind: kind, Subject: subject, Detail: fmt.Sprintf(format, args...)}, len(ops)})
+			})
+		}
+		res.Executions++
+		if round == 0 {
+			for _, d := range s.disc {
+				res.Violations = append(res.Violations, Violation{Discrepancy: d.Discrepancy, Scenario: "cache.seq", Params: raw, Ops: ops, Obs: obs})
+			}
+			if len(s.disc) == 0 {
+				res.Samples = append(res.Samples, map[string]any{"ops": ops, "observations": obs})
+			}
+		}
+		s.close()
 	}
 }
